@@ -1837,3 +1837,9 @@ PROPS["C20"]["fams"] = PROPS["C20"]["fams"] + [("fam_names", 150, 5000)]
 PROPS["C03"]["axiom_allow_for"] = {"C03_tick_is_the_rounded_real_product": REALS_AXIOMS}
 for _p in ("C15", "C01", "C08"):
     PROPS[_p]["fams"] = PROPS[_p]["fams"] + [("fam_interleave_ties", 120, 3000)]
+for _p in ("C15", "C01"):
+    PROPS[_p]["fams"] = PROPS[_p]["fams"] + [("fam_long_ties", 12, 300)]
+for _p in ("C17", "C04"):
+    PROPS[_p]["fams"] = PROPS[_p]["fams"] + [("fam_builder_scripts", 120, 3000)]
+for _p in ("C19", "C02"):
+    PROPS[_p]["fams"] = PROPS[_p]["fams"] + [("fam_reject_gap", 40, 1000), ("fam_extreme_ts", 40, 1000)]
